@@ -257,4 +257,27 @@ def matchRequirement (req : VersionKey) (versions : List Version) : Outcome (Lis
 def matchReq (req : VersionKey) (versions : List Version) : Outcome (List Version) :=
   if req.pk.sys = .npm then matchNPMRequirement req versions else matchRequirement req versions
 
+/-! ### decidable hypotheses of the C12 partial theorems (correspondence op `classify`)
+
+Not part of match.go: these are the classifiers of the two finding classes, evaluated by
+the driver so that the harness's copies are tied to the predicates the theorems use. -/
+
+/-- `less` is a strict weak order on the decorated elements of the list whose ties have
+identical version strings (`Proofs.C12Order.orderLawfulB_iff`). -/
+def orderLawfulB (s : Semver.System) (l : List Version) : Bool :=
+  let ds := l.map (dec s)
+  ds.all fun a => ds.all fun b =>
+    (!(less a b) || !(less b a)) &&
+    (less a b || less b a || a.v.key.version == b.v.key.version) &&
+    ds.all fun c => (less b a || less c b || !(less c a))
+
+/-- The record carries the dist-tag `latest` (one of the comma-separated tags). -/
+def Version.exactLatest (v : Version) : Bool := (splitOn 44 v.tagsStr).contains latestBytes
+
+/-- The test the code applies. -/
+def Version.codeLatest (v : Version) : Bool := containsSub latestBytes v.tagsStr
+
+/-- "latest" occurs in a tag string only as a whole tag. -/
+def tagsExactB (l : List Version) : Bool := l.all fun v => v.codeLatest == v.exactLatest
+
 end DepsDev.Resolve.Match
